@@ -17,7 +17,7 @@ import (
 	"github.com/facebookincubator/dns/dnsrocks/zzverif/nd"
 )
 
-//verif:harness H06_life property=C06 native=no quick=ops=3,readers=1,sched=0,ctl=0;ops=4,readers=2,sched=0,ctl=0;ops=2,readers=1,sched=1,ctl=0;ops=3,readers=1,sched=0,ctl=1 thorough=ops=5,readers=2,sched=0,ctl=0;ops=2,readers=1,sched=2,ctl=0;ops=4,readers=3,sched=0,ctl=0;ops=4,readers=2,sched=0,ctl=1
+//verif:harness H06_life property=C06 native=no quick=ops=3,readers=1,sched=0,ctl=0,sorted=0;ops=4,readers=2,sched=0,ctl=0,sorted=0;ops=2,readers=1,sched=1,ctl=0,sorted=0;ops=3,readers=1,sched=0,ctl=1,sorted=0;ops=3,readers=1,sched=0,ctl=0,sorted=1 thorough=ops=5,readers=2,sched=0,ctl=0,sorted=0;ops=2,readers=1,sched=2,ctl=0,sorted=0;ops=4,readers=3,sched=0,ctl=0,sorted=0;ops=4,readers=2,sched=0,ctl=1,sorted=0;ops=4,readers=2,sched=0,ctl=0,sorted=1
 //verif:subst H06_life os.RemoveAll github.com/facebookincubator/dns/dnsrocks/dnsserver.verifRemoveAll
 
 type verifLifeCtx struct{}
@@ -108,7 +108,21 @@ func (b *verifLifeDBI) Reload(path string) (db.DBI, error) {
 	return nil, errVerifOpen
 }
 func (b *verifLifeDBI) GetStats() map[string]int64           { b.use(); return nil }
-func (b *verifLifeDBI) ClosestKeyFinder() db.ClosestKeyFinder { return nil }
+// verifSortedBackends: the recorder offers a closest-key finder (as RocksDB with v2 keys does), so
+// that readers are the sorted kind.
+var verifSortedBackends bool
+
+func (b *verifLifeDBI) ClosestKeyFinder() db.ClosestKeyFinder {
+	if verifSortedBackends {
+		return b
+	}
+	return nil
+}
+
+func (b *verifLifeDBI) FindClosestKey(key []byte, c db.Context) ([]byte, error) {
+	b.use()
+	return nil, nil
+}
 
 func verifCheckLifecycle(served *verifLifeDBI, shutdown bool, tag string) {
 	nd.Observe("events", strings.Join(verifEvents, " "))
@@ -158,6 +172,7 @@ func H06_life() {
 	ops, maxReaders := nd.Param("ops"), nd.Param("readers")
 	verifBackends = nil
 	verifEvents = nil
+	verifSortedBackends = nd.Param("sorted") == 1
 	first := verifNewBackend() // the served back end may itself lack the validation key
 	env := verifNewHandler(first, CacheConfig{})
 	env.h.dbConfig.ValidationKey = []byte{nd.Byte()}
